@@ -9,7 +9,8 @@ told = {1: 'independent sub-agent (given only the text of the property)',
         3: 'independent sub-agent (round 3: told only which changes the round-1 and round-2 contributors had submitted, so as to pick a different site and mechanism)',
         4: 'independent sub-agent (round 4: told only which three changes the earlier contributors had submitted, so as to pick a different site and mechanism)',
         5: 'independent sub-agent (round 5: told only which four changes the earlier contributors had submitted, so as to pick a different site and mechanism)',
-        6: 'independent sub-agent (round 6: told only which five changes the earlier contributors had submitted, so as to pick a different site and mechanism)'}
+        6: 'independent sub-agent (round 6: told only which five changes the earlier contributors had submitted, so as to pick a different site and mechanism)',
+        7: 'independent sub-agent (round 7: told only which six changes the earlier contributors had submitted, so as to pick a different site and mechanism)'}
 for name, m in data.items():
     d = '/verif/seeded/' + name
     conf = open(d + '/confirm.txt').read()
@@ -19,6 +20,6 @@ for name, m in data.items():
             "confirmed": {"demo_without_change_exit": int(re.search(r'without the change: exit (\d+)', conf).group(1)),
                           "demo_with_change_exit": int(re.search(r'with the change:\s+exit (\d+)', conf).group(1)),
                           "repository_tests_with_change": re.search(r'tests with the change: (\d+ passed)', conf).group(1)},
-            "caught_by_quick_check": True, "check_output": m['out'], "history": m['history']}
+            "caught_by_quick_check": m.get('caught_by_own_check', True), "check_output": m['out'], "history": m['history']}
     json.dump(meta, open(d + '/meta.json', 'w'), indent=1, ensure_ascii=False)
     print(name, meta['confirmed'])
